@@ -54,8 +54,8 @@ enum {
 #define NS_TO_US(e) ((int64_t)(e) / 1000)
 #define NS_TO_MS(e) ((int64_t)(e) / 1000000)
 #define NS_TO_S(e)  ((int64_t)(e) / 1000000000)
-#define T_MAX ((int64_t)1 << 61)     /* global assumption: all times below 2^61 ns (73 years) */
-#define TE_MAX ((int64_t)1 << 62)     /* timer expiries: sums of two times */
+#define T_MAX (((int64_t)1 << 61) - 1)     /* global assumption: all times below 2^61 ns (73 years) */
+#define TE_MAX (((int64_t)1 << 62) - 1)     /* timer expiries: sums of two times */
 #define SZ_MAX (1 << 30)             /* global assumption: int byte quantities (queue occupancy, capacities) at most 2^30 */
 #define PKT_MAX (1 << 28)            /* global assumption: a single packet's payload at most 2^28 bytes */
 
